@@ -372,5 +372,16 @@ class Built:
         return LogEffect(logging.INFO, self._le_logger, "LE%d" % owner)
 
     def register(self, tab, entry):
-        owner = self.obj[self.tabowner[tab]]
-        owner.register(dec(entry["v"]), self.obj[entry["n"]])
+        do_register(self.obj[self.tabowner[tab]], dec(entry["v"]), self.obj[entry["n"]], entry["n"])
+
+
+def do_register(owner, alias, impl, salt=0):
+    """dataset.register(alias, impl), or - when the implementation is itself a dataset - the stacked-decorator
+    spelling owner.overload(alias)(impl) (what `@a.overload(x)` above `@b.overload(y) def f` does): always for a
+    composite (tuple) alias, which overload() must take as ONE alias, and for every other implementation otherwise."""
+    if isinstance(impl, type(owner)) and (isinstance(alias, tuple) or salt % 2 == 1):
+        got = owner.overload(alias)(impl)
+        if got is not impl:
+            raise AssertionError("overload(alias)(dataset) returned another object")
+    else:
+        owner.register(alias, impl)
